@@ -138,6 +138,11 @@ class Probe(py_trees.behaviour.Behaviour):
     def terminate(self, new_status):
         self._ctx.trace.append("X%d:%s" % (self._nid, ST[new_status]))
 
+    def __len__(self):
+        # a behaviour may be a container of the user's making; this one is always empty, i.e. falsy: the library must
+        # never confuse "no behaviour" (None) with a behaviour that happens to be falsy
+        return 0
+
 
 OPS = {"eq": operator.eq, "ne": operator.ne, "lt": operator.lt, "le": operator.le, "gt": operator.gt,
        "ge": operator.ge}
@@ -477,7 +482,9 @@ def _edit(self, op, toks):
     import uuid
     ctx = self.ctx
     target = int(toks[1])
-    uid = ctx.by_id[target].id if target in ctx.by_id else uuid.uuid4()
+    # an id is a value: it reaches the tree as an equal UUID object (parsed back from its text, as it would after a
+    # round trip through a message or a file), not as the very object the behaviour holds
+    uid = uuid.UUID(str(ctx.by_id[target].id)) if target in ctx.by_id else uuid.uuid4()
     try:
         if op == "prune":
             r = self.tree.prune_subtree(uid)
@@ -581,11 +588,14 @@ def _mtick(self, toks):
 
         def __len__(self):
             return 0
+    pre_h = Handler(pre_once) if (d.get("p") == "1" or add) else None
+    post_h = Handler(lambda t: (self.mlog.append("postOnce"), self.hcounts.append(t.count))) if d.get("q") == "1" else None
     try:
-        self.tree.tick(
-            pre_tick_handler=Handler(pre_once) if (d.get("p") == "1" or add) else None,
-            post_tick_handler=Handler(lambda t: (self.mlog.append("postOnce"), self.hcounts.append(t.count)))
-            if d.get("q") == "1" else None)
+        if d.get("tt") == "1":
+            # the same tick driven through tick_tock (one iteration, no sleep): same contract
+            self.tree.tick_tock(period_ms=0, number_of_iterations=1, pre_tick_handler=pre_h, post_tick_handler=post_h)
+        else:
+            self.tree.tick(pre_tick_handler=pre_h, post_tick_handler=post_h)
     finally:
         self.tree.visitors.remove(spy)
 
